@@ -133,7 +133,7 @@ struct GenericReduce<T, true>
 };
 
 template <class T>
-static void check_batch(const T* a, size_t w, const char* mode, bool has_nan)
+static void check_batch(const T* a, size_t w, const char* mode, bool has_nan, bool extremes_only = false)
 {
     using B = xs::batch<T, ARCH>;
     constexpr size_t N = B::size;
@@ -142,7 +142,7 @@ static void check_batch(const T* a, size_t w, const char* mode, bool has_nan)
     unsigned cell = (unsigned)(strhash(mode) % 61) * 64 + (unsigned)w;
     {
         static OpStat& st = reg("C09", "reduce_add", tname<T>());
-        if (st.on)
+        if (st.on && !extremes_only)
         {
             mark_case("reduce_add", tname<T>(), a, N * sizeof(T));
             T got = xs::reduce_add(va);
@@ -234,6 +234,37 @@ static void run_type(uint64_t seed)
             a[i] = rv<T>(rng, c);
         check_batch<T>(a, N, "random", false);
     }
+    // floating extremes for max / min / reduce(f): +-inf, +-MAX, denormals, +-0, random bit patterns (no NaN); the sum
+    // of such lanes may overflow in one association order and not in another, so reduce_add is not judged here
+    if (std::is_floating_point<T>::value)
+    {
+        for (long it = 0; it < iters; ++it)
+        {
+            for (size_t i = 0; i < N; ++i)
+            {
+                do
+                    a[i] = hostile<T>(rng, c);
+                while (a[i] != a[i]);
+            }
+            check_batch<T>(a, N, "hostile_no_nan", false, true);
+        }
+        const T ext[] = { std::numeric_limits<T>::infinity(), -std::numeric_limits<T>::infinity(), std::numeric_limits<T>::max(), std::numeric_limits<T>::lowest(),
+                          std::numeric_limits<T>::denorm_min(), (T)-std::numeric_limits<T>::denorm_min(), std::numeric_limits<T>::min() };
+        for (size_t w = 0; w < N; ++w)
+            for (T e : ext)
+                for (int rep = 0; rep < 4; ++rep)
+                {
+                    for (size_t i = 0; i < N; ++i)
+                    {
+                        do
+                            a[i] = rep == 0 ? (T)0 : rep == 1 ? (T)(e > 0 ? std::numeric_limits<T>::max() / 2 : std::numeric_limits<T>::lowest() / 2)
+                                                              : hostile<T>(rng, c);
+                        while (a[i] != a[i] || (rep >= 2 && std::isinf((double)a[i])));
+                    }
+                    a[w] = e;
+                    check_batch<T>(a, w, "float_extreme_in_lane", false, true);
+                }
+    }
     // position-of-witness workloads, every lane, several background values
     const T lo = std::numeric_limits<T>::lowest(), hi = std::numeric_limits<T>::max();
     for (size_t w = 0; w < N; ++w)
@@ -311,6 +342,60 @@ static void run_haddp(uint64_t seed)
     }
 }
 
+// reduce_add of complex batches: real parts and imaginary parts summed separately, every lane once (small integers: exact)
+template <class T>
+static void run_complex(uint64_t seed)
+{
+    using C = std::complex<T>;
+    using B = xs::batch<C, ARCH>;
+    constexpr size_t N = B::size;
+    static OpStat& st = reg("C09", "reduce_add", std::is_same<T, float>::value ? "cf32" : "cf64");
+    if (!st.on)
+        return;
+    Rng rng(mix(seed, 7331 + sizeof(T)));
+    alignas(64) C a[N];
+    long iters = budget(3000, 60000);
+    for (long it = 0; it < iters + (long)(N * 8); ++it)
+    {
+        size_t w = N;
+        int mode = 0;
+        if (it >= iters)
+        {
+            w = (size_t)(it - iters) % N;
+            mode = 1 + (int)((it - iters) / N) % 4;
+        }
+        for (size_t i = 0; i < N; ++i)
+        {
+            T re = mode == 0 ? (T)((int64_t)(rng.next() % 4097) - 2048) : mode == 3 ? (T)(i + 1) : (T)0;
+            T im = mode == 0 ? (T)((int64_t)(rng.next() % 4097) - 2048) : mode == 4 ? (T)(2 * i + 1) : (T)0;
+            a[i] = C(re, im);
+        }
+        if (mode == 1)
+            a[w] = C((T)(3 + w), 0); // one-hot real addend
+        if (mode == 2)
+            a[w] = C(0, (T)(5 + w)); // one-hot imaginary addend
+        if (mode == 3)
+            a[w] = C(a[w].real(), (T)1000); // distinct reals everywhere, one imaginary part
+        if (mode == 4)
+            a[w] = C((T)-1000, a[w].imag());
+        B va = B::load_aligned(a);
+        mark_case("reduce_add_complex", tname<T>(), a, sizeof a > 192 ? 192 : sizeof a);
+        C got = xs::reduce_add(va);
+        long double sr = 0, si = 0;
+        for (size_t i = 0; i < N; ++i)
+        {
+            sr += (long double)a[i].real();
+            si += (long double)a[i].imag();
+        }
+        st.evals++;
+        st.cell((unsigned)(mode * 64 + (w % 64)));
+        if ((long double)got.real() != sr || (long double)got.imag() != si)
+            viol(st, "unclassified", "{\"mode\":" + std::to_string(mode) + ",\"witness_lane\":" + std::to_string(w) + ",\"got_re\":" + std::to_string((double)got.real()) + ",\"got_im\":" + std::to_string((double)got.imag()) + ",\"exp_re\":" + std::to_string((double)sr) + ",\"exp_im\":" + std::to_string((double)si) + "}");
+        if (st.want_sample())
+            st.samples.push_back("{\"mode\":" + std::to_string(mode) + ",\"witness_lane\":" + std::to_string(w) + ",\"got_re\":" + std::to_string((double)got.real()) + ",\"got_im\":" + std::to_string((double)got.imag()) + "}");
+    }
+}
+
 void vh::unit_main()
 {
     uint64_t s = ctx().seed;
@@ -326,5 +411,7 @@ void vh::unit_main()
     run_type<double>(s);
     run_haddp<float>(s);
     run_haddp<double>(s);
+    run_complex<float>(s);
+    run_complex<double>(s);
 }
 VH_MAIN()
